@@ -320,7 +320,9 @@ class scrypt(  # type: ignore[misc]
             # this format doesn't support non-ascii salts.
             # as workaround, we take raw bytes, encoded to base64
             # (the encoded form has to fit max_salt_size as well)
-            salt = b64s_encode(salt)[: self.max_salt_size]
+            # NOTE: using the "./" variant of base64 -- crypt() implementations of this
+            #       format only take salts over the hash64 characters (no "+")
+            salt = b64s_encode(salt).replace(b"+", b".")[: self.max_salt_size]
         return salt
 
     # ===================================================================
